@@ -383,3 +383,84 @@ def lexems_are_kept(ctx):
                           "the lexem %r is %s: only an empty quoted string is left out (a blank one is a value: format_size(size, ' '), "
                           "replace(name, ' ', '_'))" % (lx, "dropped" if kept else "kept"))
     ctx.covered("lexems handed to the grammar by Parser::parse (8 lexem shapes)", n, distinct_keys=["String", "RawString", "Comma", "Operator"], exhaustive=True)
+
+
+def names_disjoint(ctx):
+    """X-NAMES: the parser tries a bare word as a column before it tries it as a function, and as a keyword before both: the
+    name tables must not overlap (a column alias `year` would swallow every call of YEAR(..)).  Keys are read from the
+    string tables of Field::from_str and Function::from_str; the overlap is also decided by evaluating Field::from_str on
+    every function name"""
+    import interp
+    import tables
+    ff = "<field::Field as core::str::traits::FromStr>::from_str"
+    fu = "<function::Function as core::str::traits::FromStr>::from_str"
+    fh, uh = ctx.anchor_hir(ff), ctx.anchor_hir(fu)
+    fm, um = tables.string_match(fh, 20), tables.string_match(uh, 20)
+    if fm is None or um is None:
+        ctx.violation("names/anchor", ctx.where(fu), "the name tables of columns / functions were not found")
+        return
+    cols = {k for k in tables.table_of(fm, lambda b: "x") if k != "_"}
+    funs = {k for k in tables.table_of(um, lambda b: "x") if k != "_"}
+    both = sorted(cols & funs)
+    ctx.obligation(not both)
+    for w in both:
+        ctx.violation("names/overlap/%s" % w, ctx.where(ff, fm), "`%s` is both a column name and a function name: the parser resolves a bare word as a column first, so %s(..) "
+                      "is no longer a function call" % (w, w.upper()))
+    # the same by evaluation (robust to a table that is not a plain match)
+    ps = ctx.prog.fns[ff]["params"]
+    n = 0
+    for w in sorted(funs):
+        try:
+            got = interp.Interp(prog=ctx.prog).run(fh, {ps[0]["id"]: w})
+        except interp.Undecided:
+            continue
+        n += 1
+        ok = isinstance(got, interp.V) and got.name == "Result::Err"
+        ctx.obligation(ok)
+        if not ok and w not in both:
+            ctx.violation("names/overlap/%s" % w, ctx.where(ff), "Field::from_str(%r) gives %s: a function name must not be a column name" % (w, got))
+    ctx.covered("column names vs function names (tables and evaluation of Field::from_str on every function name)", len(cols) + len(funs) + n,
+                distinct_keys=["columns:%d" % len(cols), "functions:%d" % len(funs)], exhaustive=True)
+    ctx.floor(len(cols), 90, "column names", ff)
+    ctx.floor(len(funs), 70, "function names", fu)
+
+
+def bracket_styles_agree(ctx):
+    """X-BRACKETS: curly and round brackets are interchangeable: wherever the parser tests for a closing bracket of one style,
+    an enclosing decision (`if` / `match`) also provides for the other style"""
+    n = 0
+    pairs = (("Lexem::Close", "Lexem::CurlyClose"), ("Lexem::CurlyClose", "Lexem::Close"))
+    for name in sorted(ctx.prog.fns):
+        if not name.startswith("parser::Parser::") or "{closure" in name:
+            continue
+        h = ctx.prog.hir(name)
+        if h is None:
+            continue
+
+        def mentions(node, what):
+            for y in walk(node):
+                r = y.get("res") or y.get("path") or ""
+                if isinstance(r, str) and r.endswith(what):
+                    return True
+                if y["k"] in ("PPath", "PTupleStruct", "PStruct") and str(y.get("res", y.get("name", ""))).endswith(what):
+                    return True
+            return what.split("::")[-1] in [t for t in _idents(node)] and False
+        for x in walk(h):
+            r = x.get("res") if isinstance(x.get("res"), str) else None
+            for a, b in pairs:
+                if r and r.endswith(a) and x["k"] in ("Path", "PPath", "PTupleStruct", "PStruct", "PLit", "Bind", "PPathExpr") or (r and r.endswith(a) and x["k"].startswith("P")):
+                    chain = path_to(h, x) or []
+                    ancs = [n_ for n_, _k in chain if n_["k"] in ("Match", "If")]
+                    n += 1
+                    ok = any(mentions(anc, b) for anc in ancs)
+                    ctx.obligation(ok)
+                    if not ok:
+                        ctx.violation("brackets/%s/%s" % (short(name, 1), a.split("::")[-1]), ctx.where(name, x),
+                                      "%s tests for %s in a decision that does not provide for %s: a query written with the other bracket style is "
+                                      "parsed differently" % (short(name, 1), a, b))
+    ctx.covered("bracket tests of the parser paired with the other style in the same decision", n, distinct_keys=["sites:%d" % n])
+    ctx.floor(n, 4, "closing-bracket tests in the parser", "parser::Parser")
+
+
+def _idents(node):
+    return []
